@@ -91,6 +91,9 @@ def run(chk):
                 spec_order = [k for k in orders[ver].get(f'{cat}:{json.loads(text).get("type")}', []) if k in top]
                 known = [k for k in top if k in spec_order]
                 if known != spec_order: return (f'pretty#top-level properties in specification order:{tname}', f'{label}: pretty order {top}, specification order {spec_order}', {})
+                others = [i for i, k in enumerate(top) if k not in spec_order]; firsts = [i for i, k in enumerate(top) if k in spec_order]
+                if spec_order and others and firsts and min(others) < max(firsts):
+                    return (f'pretty#specification-defined properties come first:{tname}', f'{label}: pretty order {top}: a property outside the specification order precedes a specification-defined one', {})
         return None
     cc = list(cases())
     chk.bounded('round trip and option sets', cc, check, classify=lambda c: c[1], bound='every class variant x ' + ('3' if chk.tier == 'thorough' else '2') + ' value classes; 48 option sets on minimal/all-optional/custom forms, 7 on the others')
@@ -118,6 +121,15 @@ def run(chk):
                 specials.append(('2.1 marking-definition: ' + nm, lambda d=d: stix2.v21.MarkingDefinition(definition_type='statement', definition=stix2.v21.StatementMarking('s'), created=d), False))
                 specials.append(('2.1 indicator valid_from: ' + nm, lambda d=d: stix2.v21.Indicator(pattern="[file:name = 'a']", pattern_type='stix', valid_from=d), False))
                 specials.append(('2.0 bundle of a marking-definition: ' + nm, lambda d=d: stix2.v20.Bundle(objects=[stix2.v20.MarkingDefinition(definition_type='statement', definition=stix2.v20.StatementMarking('s'), created=d)]), False))
+        import copy as _cp
+        for nm, mk in (('2.1 identity', lambda: stix2.v21.Identity(name='n', created='2020-01-01T00:00:00Z', modified='2020-01-01T00:00:00.120Z')),
+                       ('2.0 identity', lambda: stix2.v20.Identity(name='n', identity_class='individual', created='2020-01-01T00:00:00Z', modified='2020-01-01T00:00:00.120Z')),
+                       ('2.1 TLP marking', lambda: stix2.v21.TLP_AMBER), ('2.0 TLP marking', lambda: stix2.v20.TLP_RED),
+                       ('2.1 bundle', lambda: stix2.v21.Bundle(stix2.v21.Identity(name='n', created='2020-01-01T00:00:00Z', modified='2020-01-01T00:00:00Z'))),
+                       ('2.1 file with extension object', lambda: stix2.v21.File(name='f', extensions={'ntfs-ext': stix2.v21.NTFSExt(sid='s')})),
+                       ('2.0 observed-data', lambda: stix2.v20.ObservedData(first_observed=G.T1, last_observed=G.T1, number_observed=1, objects={'0': {'type': 'file', 'name': 'f', 'created': '2020-01-01T00:00:00Z'}}))):
+            specials.append(('deep copy of a ' + nm, lambda mk=mk: _cp.deepcopy(mk()), False))
+            specials.append(('new version of a deep copy of a ' + nm, lambda mk=mk: _cp.deepcopy(mk()).new_version(), False))
         specials.append(('observed-data with embedded objects (2.0)', lambda: stix2.v20.ObservedData(first_observed=G.T1, last_observed=G.T1, number_observed=1, objects={'0': {'type': 'file', 'name': 'f', 'size': 0}}), False))
         specials.append(('float property 1e21 / 0.1', lambda: stix2.v21.Location(latitude=0.1, longitude=-0.0, precision=1e21), False))
         specials.append(('nested extension with floats', lambda: stix2.v21.File(name='f', extensions={'raster-image-ext': {'exif_tags': {'a': 1.5, 'b': [1e-7, 2**53 + 1]}}}), False))
@@ -128,7 +140,8 @@ def run(chk):
         name, build, custom = case
         try: o = build()
         except Exception as ex: return None
-        text = o.serialize()
+        try: text = o.serialize()
+        except Exception as ex: return (f'roundtrip#serializable:{name.split(" of a ")[0]}', f'{name}: cannot be serialized: {type(ex).__name__}: {str(ex)[:120]}', {})
         try: back = stix2.parse(text, allow_custom=custom)
         except Exception as ex: return (f'roundtrip#own output parses:{name}', f'{name}: cannot parse own output: {type(ex).__name__}: {str(ex)[:120]}', {'text': text[:300]})
         if type(back) is not type(o) or back != o: return (f'roundtrip#equal object:{name}', f'{name}: parse(serialize(o)) != o; {text[:200]} vs {back.serialize()[:200]}', {})
